@@ -98,11 +98,16 @@ LSOf(s) == <<<<"__name__", s.name>>>> \o (IF s.a = "" THEN <<>> ELSE <<<<"a", s.
 DataScn == [i \in 1..Len(DataSeq) |-> Series(LSOf(DataSeq[i]), [u \in 1..6 |-> Smp(u - 1, "f", 3 * i + u)])]
 
 Positions == <<"bin", "sum", "fnarg", "range", "aggby", "groupleft", "cmp", "neg", "paren", "nested">>
-MH(ms) == IF Len(ms) = 0 THEN 1 ELSE IF Len(ms) = 1 THEN 3 + Len(ms[1].v) + Len(ms[1].t) * 5 + Len(ms[1].acc) * 7 + Len(ms[1].n)
-          ELSE 11 + Len(ms[1].v) * 3 + Len(ms[1].t) * 5 + Len(ms[1].acc) * 7 + Len(ms[2].v) * 13 + Len(ms[2].t) * 17 + Len(ms[2].acc) * 19
-Hash(x) == MH(x.m1) * 31 + MH(x.m2) * 37 + Len(x.n1) + (IF x.n1 = x.n2 THEN 5 ELSE 9)
-           + (IF Len(x.m1) > 0 /\ x.m1[1].n = "a" THEN 41 ELSE 43) + (IF Len(x.m2) > 0 /\ x.m2[1].n = "a" THEN 47 ELSE 53)
-PosOf(x) == Positions[((Hash(x) \div Mod) % Len(Positions)) + 1]
+\* a well-mixed hash of the pair (indices of the matchers in the alphabet), so that every residue class holds every kind of pair
+MASeq == SetToSeq(MA)
+Idx(m) == CHOOSE i \in 1..Len(MASeq) : MASeq[i] = m
+LH(ms, p, q) == IF Len(ms) = 0 THEN 0 ELSE IF Len(ms) = 1 THEN Idx(ms[1]) * p ELSE Idx(ms[1]) * p + Idx(ms[2]) * q + 13
+Hash(x) == LH(x.m1, 7919, 104729) + LH(x.m2, 1299709, 15485863) + (IF x.n1 = "m" THEN 0 ELSE 32452843) + (IF x.n2 = "m" THEN 0 ELSE 2 * 32452843)
+\* different metrics sharing a matcher: PropagateMatchers looks at the pair and must leave it alone
+Shared(x) == x.n1 # x.n2 /\ (\E i \in 1..Len(x.m1) : InList(x.m2, x.m1[i]))
+\* `A + B` with both selectors as direct operands is the only position PropagateMatchers rewrites: half of the pairs it looks at go there
+PosOf(x) == IF (Applies(x) \/ Shared(x)) /\ (Hash(x) \div Mod) % 2 = 0 THEN "bin"
+            ELSE Positions[((Hash(x) \div (2 * Mod)) % Len(Positions)) + 1]
 
 PlanOf(x) ==
   LET p == PosOf(x)  a == <<[Blank("sel") EXCEPT !.m = S1(x)]>>  b == <<[Blank("sel") EXCEPT !.m = S2(x)]>> IN
@@ -120,10 +125,10 @@ PlanOf(x) ==
     [] p = "groupleft" -> Join(a, Over(b, LAMBDA c : Agg("sum", TRUE, <<"a">>, <<c>>)), LAMBDA i, j : BinM("*", i, j, FALSE, "N:1", TRUE, <<"a">>, <<>>))
 
 ScnOf(x) == Scn("opt", "C09", TickMs, DataScn, PlanOf(x), 2, 5, 1, 2, 0)
-\* emit pairs on which a rewrite actually fires, from the seeded residue class
+\* emit pairs on which a rewrite actually fires or which PropagateMatchers inspects and rejects, from the seeded residue class
 Fires(x) == Rewrite(x, S1(x)).merged \/ Rewrite(x, S2(x)).merged \/ Applies(x)
 \* ... and, at a third of that rate, pairs on which the model says NO rewrite fires (a change that
 \* makes a rewrite fire more often must be seen too)
-EmitOpt == IF (Fires(g) /\ Hash(g) % Mod = Seed % Mod) \/ (~Fires(g) /\ Hash(g) % (3 * Mod) = Seed % (3 * Mod))
+EmitOpt == IF ((Fires(g) \/ Shared(g)) /\ Hash(g) % Mod = Seed % Mod) \/ (~Fires(g) /\ ~Shared(g) /\ Hash(g) % (3 * Mod) = Seed % (3 * Mod))
            THEN Emit(ScnOf(g)) ELSE TRUE
 =============================================================================
